@@ -1210,6 +1210,9 @@ func c21GenTag(rng *rand.Rand, malformedPct int) string {
 func c21GenSpec(rng *rand.Rand, malformedPct int) c21TypeSpec {
 	sp := c21TypeSpec{Zoo: -1}
 	n := 1 + rng.Intn(7)
+	if rng.Intn(6) == 0 {
+		n = 13 + rng.Intn(18) // wide structs: sorting algorithms behave differently above a dozen elements
+	}
 	used := map[string]bool{}
 	embedded := map[string]bool{}
 	for i := 0; i < n; i++ {
